@@ -385,6 +385,10 @@ def same_outcome(sym_out, real_out, model):
             continue
         fv = z3.simplify(_ev(model, f))
         g = z3.simplify(g)
+        if sym_out.extra.get("approx") and _is_numeral(fv) and _is_numeral(g):
+            a, b = _numval(fv), _numval(g)
+            if abs(a - b) <= Fraction(1, 10 ** 9) * (1 + abs(a)):
+                continue
         if not fv.eq(g) and not (_is_numeral(fv) and _is_numeral(g) and _numval(fv) == _numval(g)):
             return False, f"value[{i}] differs: model {fv} vs real {g}"
     return True, None
